@@ -356,3 +356,57 @@ B('pB2_sentinel_consumes_recorded_errors', ['C06'], 'R06.c',
 B('pB2_dispatch_rewrites_recorded_errors', ['C06'], 'R06.c',
   (A, "            else:\n                dispatch_state.add_exception(ret)\n",
       "            else:\n                dispatch_state.add_exception(ret)\n                dispatch_state.exceptions.reverse()\n"))
+
+# ---------------------------------------------------------------------------------------------- second pass: the canonicity test (R07.a)
+# the test "is this path canonical" compares normalize_path(request path) with the request path in the same representation
+_IND4 = lambda text: ''.join('    ' + l for l in text.splitlines(True))
+
+
+def _slash2(bind='normalize_path(url_path, route.is_branch)', test='norm_path != url_path', piece='url_quote(norm_path)',
+            template="'{root}{path}?{query}'"):
+    """the nested slash handling with the Location built by a keyword .format"""
+    return ("            if route.is_branch:\n"
+            "                norm_path = " + bind + "\n"
+            "                if " + test + ":\n"
+            "                    if route.slash_mode == S_REDIRECT:\n" + _IND4(_QUERY) +
+            "                        return redirect(" + template + ".format(root=request.url_root.rstrip('/'), path=" + piece + ", query=query))\n"
+            "                    elif route.slash_mode == S_STRICT:\n" + _IND4(_STRICT))
+
+
+_DISPATCH_DEF = "    def dispatch(self, request):\n        ret = None\n"
+_HELPER = ("    def _slash_redirect(self, request, quoted_path):\n"
+           "        query = request.query_string\n"
+           "        try:\n"
+           "            query = query.decode('utf8')\n"
+           "        except UnicodeDecodeError:\n"
+           "            query = url_quote(query, safe=_QUERY_SAFE)\n"
+           "        location = '{root}{path}?{query}'.format(root=request.url_root.rstrip('/'), path=quoted_path, query=query)\n"
+           "        return redirect(location)\n\n")
+
+
+def _slash_helper(bind, arg):
+    return ("            if route.is_branch:\n"
+            "                norm_path = " + bind + "\n"
+            "                is_canonical = (norm_path == url_path)\n"
+            "                if not is_canonical and route.slash_mode == S_REDIRECT:\n"
+            "                    return self._slash_redirect(request, " + arg + ")\n"
+            "                if not is_canonical and route.slash_mode == S_STRICT:\n" + _STRICT)
+
+
+T('pB2_twin_location_keyword_format', ['C06', 'C07', 'C08'], (A, _SLASH, _slash2()))
+T('pB2_twin_location_template_constant', ['C07'], (A, _SLASH, _slash2(template='_LOCATION_TEMPLATE')),
+  (A, "def default_render_error(request, _error, **kwargs):\n", "_LOCATION_TEMPLATE = '{root}{path}?{query}'\n\n\ndef default_render_error(request, _error, **kwargs):\n"))
+T('pB2_twin_redirect_helper_quoted_at_call', ['C06', 'C07', 'C08'],
+  (A, _DISPATCH_DEF, _HELPER + _DISPATCH_DEF), (A, _SLASH, _slash_helper('normalize_path(url_path, is_branch=True)', 'url_quote(norm_path)')))
+T('pB2_twin_both_operands_quoted', ['C07'],
+  (A, _SLASH, _slash2(bind='url_quote(normalize_path(url_path, route.is_branch))', test='norm_path != url_quote(url_path)', piece='norm_path')))
+B('pB2_quote_hoisted_before_canonical_test', ['C07'], 'R07.a',
+  (A, _DISPATCH_DEF, _HELPER + _DISPATCH_DEF), (A, _SLASH, _slash_helper('url_quote(normalize_path(url_path, is_branch=True))', 'norm_path')))
+B('pB2_canonical_quoted_at_the_test', ['C07'], 'R07.a', (A, _SLASH, _slash2(test='url_quote(norm_path) != url_path')))
+B('pB2_only_request_path_quoted', ['C07'], 'R07.a', (A, _SLASH, _slash2(test='norm_path != url_quote(url_path)')))
+B('pB2_request_path_stripped_at_the_test', ['C07'], 'R07.a', (A, _SLASH, _slash2(test="norm_path != url_path.rstrip('/')")))
+B('pB2_canonical_path_lowercased', ['C07'], 'R07.a', (A, _SLASH, _slash2(bind='normalize_path(url_path, route.is_branch).lower()')))
+B('pB2_quoted_with_different_safe_sets', ['C07'], 'R07.a',
+  (A, _SLASH, _slash2(bind="url_quote(normalize_path(url_path, route.is_branch), safe='/')", test='norm_path != url_quote(url_path)', piece='norm_path')))
+B('pB2_keyword_format_path_unquoted', ['C07'], 'R07.b', (A, _SLASH, _slash2(piece='norm_path')))
+B('pB2_keyword_format_query_before_path', ['C07'], 'R07.b', (A, _SLASH, _slash2(template="'{root}{query}?{path}'")))
